@@ -481,9 +481,10 @@ type dsseOut struct {
 	Signatures  []dsseSig `json:"signatures"`
 }
 
-// dsseOf: a DSSE envelope file around payload, signed over PAE(type, canonical payload) with Go's crypto directly
+// dsseOf: a DSSE envelope file around payload, signed over PAE(type, payload bytes) with Go's crypto directly
+// (the payload bytes are plain encoding/json: canonical JSON leaves newlines of PEM strings unescaped)
 func dsseOf(payload any, keys ...intoto.Key) []byte {
-	body, err := cjson.EncodeCanonical(payload)
+	body, err := json.Marshal(payload)
 	if err != nil {
 		panic(err)
 	}
